@@ -341,4 +341,203 @@ theorem stream_stops_on_error (b : Bucket) (amt tok : Nat) (evs : List (Rat × B
           rw [List.getLast?_cons_of_ne_nil (List.ne_nil_of_mem he)]
           exact this
 
+/-! ### Window bounds (partial results towards the statement's interval bound)
+
+The statement's `1.25·max·T + burst` is proved here for first-attempt traffic (`window_unsched`),
+and for reads that had to wait the grants are shown to be no earlier than a FIFO server of rate
+`max_rate` would finish them (`fifo_lower_bound`, `vf_ge_sum`) — under the assumption that a
+refused stream retries no earlier than it was told, the wait told being the queue's total plus
+its own (`wait_is_queue`).  The combination for mixed traffic is measured by the oracle. -/
+
+/-- a run of consume calls every one of which is granted without having been scheduled
+(traffic that the limiter admits on the first attempt) -/
+def runUnsched (b : Bucket) : List (Nat × Nat × Rat) → Option Bucket
+  | [] => some b
+  | (amt, tok, now) :: rest =>
+    if isScheduled b tok = false ∧ (consume b amt tok now).2 = .granted then runUnsched (consume b amt tok now).1 rest
+    else none
+
+theorem consume_unsched_granted (b : Bucket) (amt tok : Nat) (now : Rat) (hns : isScheduled b tok = false)
+    (hg : (consume b amt tok now).2 = .granted) : (consume b amt tok now).1 = record b amt now := by
+  unfold consume at hg ⊢
+  simp only [hns, Bool.false_eq_true, if_false] at hg ⊢
+  by_cases h : exceeds (projected b amt now) b.maxRate = true
+  · simp [h] at hg
+  · simp [h]
+
+theorem record_last (b : Bucket) (amt : Nat) (now : Rat) : (record b amt now).last = some now ∧ (record b amt now).maxRate = b.maxRate := by
+  unfold record
+  cases b.last <;> simp
+
+/-- **Window bound for first-attempt traffic.** Over any stretch of consecutive grants none of which
+had to wait, the bytes granted after the clock reading `t0` of the previous grant are at most
+`(1/α)·max·(t₁ − t0)` where `t₁` is the clock reading of the last of them — the statement's
+`1.25 × max_bandwidth × T`, with no burst term at all. -/
+theorem window_unsched (evs : List (Nat × Nat × Rat)) (b b' : Bucket) (t0 : Rat)
+    (hlast : b.last = some t0) (hr : RateNonneg b) (hrun : runUnsched b evs = some b') :
+    ∃ t1, b'.last = some t1 ∧ t0 ≤ t1 ∧
+      (((evs.map (fun e => e.1)).sum : Nat) : Rat) ≤ (1 / alpha) * b.maxRate * (t1 - t0) := by
+  induction evs generalizing b t0 with
+  | nil =>
+    simp only [runUnsched, Option.some.injEq] at hrun
+    subst hrun
+    exact ⟨t0, hlast, le_refl _, by simp⟩
+  | cons e rest ih =>
+    obtain ⟨amt, tok, now⟩ := e
+    simp only [runUnsched] at hrun
+    split at hrun
+    · rename_i hg
+      obtain ⟨hns, hgr⟩ := hg
+      have hb := admit_bound b amt tok now t0 hlast hr hns hgr
+      have heq := consume_unsched_granted b amt tok now hns hgr
+      have hrl := record_last b amt now
+      have hr1 : RateNonneg (consume b amt tok now).1 := rate_nonneg_consume b amt tok now hr
+      have hl1 : (consume b amt tok now).1.last = some now := by rw [heq]; exact hrl.1
+      have hm1 : (consume b amt tok now).1.maxRate = b.maxRate := by rw [heq]; exact hrl.2
+      obtain ⟨t1, h1, h2, h3⟩ := ih (consume b amt tok now).1 now hl1 hr1 hrun
+      refine ⟨t1, h1, by linarith [hb.1], ?_⟩
+      rw [hm1] at h3
+      simp only [List.map_cons, List.sum_cons, Nat.cast_add]
+      have : (1 / alpha) * b.maxRate * (t1 - t0) = (1 / alpha) * b.maxRate * (now - t0) + (1 / alpha) * b.maxRate * (t1 - now) := by ring
+      rw [this]
+      linarith [hb.2]
+    · cases hrun
+
+
+/-! #### scheduled (refused, then retried) reads as a FIFO queue -/
+
+/-- one read that the limiter refused: the clock reading of the refusal, the time the limit needs
+for its amount (`amt / max_rate`), and the clock reading at which it was finally granted -/
+structure Tok where
+  r   : Rat
+  ttc : Rat
+  s   : Rat
+
+/-- virtual finish time of the newest token in a FIFO server of rate `max_rate` (list newest first) -/
+def vf : List Tok → Rat
+  | [] => 0
+  | [t] => t.r + t.ttc
+  | t :: (u :: rest) => max t.r (vf (u :: rest)) + t.ttc
+
+/-- the time the limit needs for the tokens that are still waiting at clock reading `r` -/
+def waitingSum : List Tok → Rat → Rat
+  | [], _ => 0
+  | u :: rest, r => (if r < u.s then u.ttc else 0) + waitingSum rest r
+
+def backlogSum : List Tok → Rat → Rat
+  | [], _ => 0
+  | u :: rest, r => (if r < vf (u :: rest) then u.ttc else 0) + backlogSum rest r
+
+/-- the history is one the limiter can produce when every stream sleeps at least what it is told:
+refusals in clock order, and each token is granted no earlier than its refusal plus the wait it
+was told — the time for everything still waiting at that moment plus its own -/
+def Valid : List Tok → Prop
+  | [] => True
+  | t :: older => Valid older ∧ 0 ≤ t.ttc ∧ (∀ u ∈ older, u.r ≤ t.r) ∧
+      t.r + waitingSum older t.r + t.ttc ≤ t.s
+
+def Ok : List Tok → Prop
+  | [] => True
+  | t :: older => vf (t :: older) ≤ t.s ∧ Ok older
+
+theorem nonneg_of_valid : ∀ l, Valid l → ∀ u ∈ l, 0 ≤ u.ttc
+  | [], _, u, hu => by cases hu
+  | t :: older, h, u, hu => by
+    simp only [Valid] at h
+    rcases List.mem_cons.mp hu with rfl | hu
+    · exact h.2.1
+    · exact nonneg_of_valid older h.1 u hu
+
+theorem backlogSum_nonneg (l : List Tok) (r : Rat) (hn : ∀ u ∈ l, 0 ≤ u.ttc) : 0 ≤ backlogSum l r := by
+  induction l with
+  | nil => simp [backlogSum]
+  | cons u rest ih =>
+    simp only [backlogSum]
+    have h1 := hn u (by simp)
+    have h2 := ih (fun x hx => hn x (by simp [hx]))
+    split <;> linarith
+
+/-- the FIFO server's backlog at `r` is at most the work of the tokens it has not finished -/
+theorem backlog_le (l : List Tok) (r : Rat) (hne : l ≠ []) (hn : ∀ u ∈ l, 0 ≤ u.ttc) (hr : ∀ u ∈ l, u.r ≤ r) :
+    vf l - r ≤ backlogSum l r := by
+  induction l with
+  | nil => exact absurd rfl hne
+  | cons u rest ih =>
+    have hu := hn u (by simp)
+    have hru := hr u (by simp)
+    cases rest with
+    | nil =>
+      simp only [backlogSum]
+      have hvf : vf [u] = u.r + u.ttc := rfl
+      by_cases h : r < vf [u]
+      · rw [if_pos h]; rw [hvf]; linarith
+      · rw [if_neg h]; linarith [not_lt.mp h]
+    | cons v rest' =>
+      have ih' := ih (by simp) (fun x hx => hn x (by simp [hx])) (fun x hx => hr x (by simp [hx]))
+      have hbn := backlogSum_nonneg (v :: rest') r (fun x hx => hn x (by simp [hx]))
+      simp only [backlogSum] at ih' hbn ⊢
+      by_cases h : r < vf (u :: v :: rest')
+      · rw [if_pos h]
+        simp only [vf] at h ⊢
+        rcases max_cases u.r (vf (v :: rest')) with ⟨hm, _⟩ | ⟨hm, _⟩
+        · rw [hm]; linarith
+        · rw [hm]; linarith
+      · rw [if_neg h]
+        have : vf (u :: v :: rest') ≤ r := not_lt.mp h
+        linarith
+
+theorem backlog_le_waiting (l : List Tok) (r : Rat) (hok : Ok l) (hn : ∀ u ∈ l, 0 ≤ u.ttc) :
+    backlogSum l r ≤ waitingSum l r := by
+  induction l with
+  | nil => simp [backlogSum, waitingSum]
+  | cons u rest ih =>
+    simp only [Ok] at hok
+    have ih' := ih hok.2 (fun x hx => hn x (by simp [hx]))
+    have hu := hn u (by simp)
+    simp only [backlogSum, waitingSum]
+    by_cases h : r < vf (u :: rest)
+    · have : r < u.s := lt_of_lt_of_le h hok.1
+      rw [if_pos h, if_pos this]; linarith
+    · rw [if_neg h]
+      split <;> linarith
+
+/-- **Scheduled reads are granted no earlier than a FIFO server of rate `max_rate` would finish
+them**: in every history in which each refused read retries no earlier than it was told, every
+token's grant time is at least its virtual finish time `max(refusal, previous finish) + amt/max`. -/
+theorem fifo_lower_bound : ∀ l, Valid l → Ok l
+  | [], _ => trivial
+  | [t], h => by
+    simp only [Valid, waitingSum] at h
+    simp only [Ok, vf]
+    exact ⟨by linarith [h.2.2.2], trivial⟩
+  | t :: (u :: rest), h => by
+    have hv : Valid (u :: rest) := h.1
+    have ih := fifo_lower_bound (u :: rest) hv
+    simp only [Valid] at h
+    obtain ⟨_, ht, hord, hs⟩ := h
+    have hn := nonneg_of_valid (u :: rest) hv
+    have h1 := backlog_le (u :: rest) t.r (by simp) hn hord
+    have h2 := backlog_le_waiting (u :: rest) t.r ih hn
+    have h3 := backlogSum_nonneg (u :: rest) t.r hn
+    refine ⟨?_, ih⟩
+    simp only [vf]
+    rcases max_cases t.r (vf (u :: rest)) with ⟨hm, _⟩ | ⟨hm, _⟩
+    · rw [hm]; linarith
+    · rw [hm]; linarith
+
+/-- consequence: `k` scheduled reads of `amt` bytes each, refused from clock reading `r0` on, are not
+all granted before `r0 + k·amt/max` — scheduled traffic moves at most `max_rate` on average -/
+theorem vf_ge_sum : ∀ (l : List Tok), l ≠ [] → (∀ u ∈ l, 0 ≤ u.ttc) → ∀ r0, (∀ u ∈ l, r0 ≤ u.r) →
+    r0 + (l.map (·.ttc)).sum ≤ vf l
+  | [], h, _, _, _ => absurd rfl h
+  | [t], _, _, r0, hr => by
+    simp only [vf, List.map_cons, List.map_nil, List.sum_cons, List.sum_nil]
+    have := hr t (by simp); linarith
+  | t :: (u :: rest), _, hn, r0, hr => by
+    have ih := vf_ge_sum (u :: rest) (by simp) (fun x hx => hn x (by simp [hx])) r0 (fun x hx => hr x (by simp [hx]))
+    simp only [vf, List.map_cons, List.sum_cons] at ih ⊢
+    have := le_max_right t.r (vf (u :: rest))
+    linarith
+
+
 end S3V.C13
